@@ -55,7 +55,9 @@ class Effects:
         self.M = model
         self.summ = {q: Summary() for q in model.funcs}
         self.rounds = 0
+        self._spec = {}
         self._fixpoint()
+        self._spec = {}
 
     def _fixpoint(self):
         for it in range(8):
@@ -75,22 +77,55 @@ class Effects:
     def of(self, qual):
         return self.summ[qual]
 
+    def specialised(self, fn, noneness):
+        """summary of `fn` for a call site that fixes which of its optional parameters are None (`out=None` helpers that work in place or
+        out of place): branches on `p is None` are pruned accordingly"""
+        key = (fn.qual, tuple(sorted(noneness.items())))
+        if key not in self._spec:
+            self._spec[key] = self.summ[fn.qual]    # recursion guard
+            self._spec[key] = Analyzer(self, fn, assume=noneness).run()
+        return self._spec[key]
+
 
 def params_of(f):
     return f.all_params
 
 
+def _none_test(test):
+    """(`p`, True) for `p is None`, (`p`, False) for `p is not None`, else None"""
+    if isinstance(test, ast.Compare) and len(test.ops) == 1 and isinstance(test.left, ast.Name) and isinstance(test.comparators[0], ast.Constant) \
+            and test.comparators[0].value is None:
+        if isinstance(test.ops[0], ast.Is):
+            return test.left.id, True
+        if isinstance(test.ops[0], ast.IsNot):
+            return test.left.id, False
+    return None
+
+
 class Analyzer:
-    def __init__(self, eff, func):
+    def __init__(self, eff, func, assume=None):
         self.E = eff
         self.M = eff.M
         self.f = func
+        self.assume = dict(assume or {})   # parameter -> True (is None at this call) / False (is not None): prunes `p is None` tests
         self.env = {}
         for p in func.all_params:
             name = p.lstrip("*")
             self.env[name] = {("P", name)}
         self.s = Summary()
         self.nested_defs = {}
+        self._maybe_none = {}   # local -> True when some assignment binds it to the constant None
+        for n in ast.walk(func.node):
+            if isinstance(n, ast.Assign) and isinstance(n.value, ast.Constant) and n.value.value is None:
+                for t in n.targets:
+                    if isinstance(t, ast.Name):
+                        self._maybe_none[t.id] = True
+        for pn, d in (getattr(func, "defaults", {}) or {}).items():
+            if isinstance(d, ast.Constant) and d.value is None and pn not in self.assume:
+                self._maybe_none[pn] = True
+        for pn, v in self.assume.items():
+            if v:
+                self._maybe_none[pn] = True
 
     # ---------------------------------------------------------------- roots of an expression
     def roots(self, e):
@@ -137,6 +172,9 @@ class Analyzer:
             return r
         if isinstance(e, ast.IfExp):
             self.roots(e.test)
+            nt = _none_test(e.test)
+            if nt is not None and nt[0] in self.assume and not self._rebound(nt[0]):
+                return self.roots(e.body if self.assume[nt[0]] == nt[1] else e.orelse)
             return self.roots(e.body) | self.roots(e.orelse)
         if isinstance(e, (ast.Tuple, ast.List, ast.Set)):
             r = set()
@@ -170,6 +208,37 @@ class Analyzer:
             self.env[e.target.id] = set(r)
             return r
         return {F}
+
+    def _rebound(self, name):
+        """is the parameter assigned anywhere in the function? (then a test on it no longer speaks about the caller's argument)"""
+        for n in ast.walk(self.f.node):
+            if isinstance(n, ast.Name) and n.id == name and isinstance(n.ctx, ast.Store):
+                return True
+        return False
+
+    def _noneness(self, fn, bound):
+        """for the optional parameters of `fn` that it tests against None: what this call site passes (True = None, False = certainly an object)"""
+        out = {}
+        tested = set()
+        for n in ast.walk(fn.node):
+            nt = _none_test(n.test) if isinstance(n, (ast.If, ast.IfExp)) else None
+            if nt is not None and nt[0] in fn.params:
+                tested.add(nt[0])
+        for pn in tested:
+            node = bound.get(pn)
+            if node is None:
+                d = fn.defaults.get(pn) if hasattr(fn, "defaults") else None
+                if isinstance(d, ast.Constant) and d.value is None:
+                    out[pn] = True
+            elif isinstance(node, ast.Constant) and node.value is None:
+                out[pn] = True
+            elif isinstance(node, ast.AST) and not isinstance(node, ast.Constant):
+                r = self.roots(node)
+                # an array-valued expression (a fresh result, a view of a parameter / attribute) is never the constant None; a local that
+                # some assignment binds to None, or a parameter defaulting to None, may be
+                if r and S not in r and not (isinstance(node, ast.Name) and self._maybe_none.get(node.id)):
+                    out[pn] = False
+        return out
 
     # ---------------------------------------------------------------- calls
     def call(self, c):
@@ -244,6 +313,9 @@ class Analyzer:
                 bound = None
             if sm is None or bound is None:
                 return self.opaque(arg_roots, kw_roots)
+            nn = self._noneness(fn, bound)
+            if nn:
+                sm = self.E.specialised(fn, nn)
             if sm.rng:
                 self.s.rng.append(c)
             for p in sm.mut:
@@ -416,6 +488,10 @@ class Analyzer:
                 self.s.ret_attrs |= {x[1] for x in r if x[0] == "A"}
         elif isinstance(s, ast.If):
             self.roots(s.test)
+            nt = _none_test(s.test)
+            if nt is not None and nt[0] in self.assume and not self._rebound(nt[0]):
+                self.block(s.body if self.assume[nt[0]] == nt[1] else s.orelse)
+                return
             e0 = {k: set(v) for k, v in self.env.items()}
             self.block(s.body)
             e1 = self.env
